@@ -136,6 +136,17 @@ add("C11", "lifecycle-sim", "exploration",
     "reset (documented semantics of set); limit parameters adjusted at initialisation are only judged when altered by the history.",
     "DESIGN.md section 4, C11")
 
+add("C19", "lifecycle-sim", "exploration",
+    "deterministic simulation: seeded add-sequence histories (index styles, duplicates, auto indices, interleaved order, dangling references) against a dict-based registry reference; lookups, back-references and helper devices checked after setup",
+    "Small systems are built device by device through System.add across ten groups with explicit, duplicate, missing, numeric, float, string "
+    "and numeric-looking-string indices in natural, reversed or shuffled order (referrers before targets where the index is known), optionally "
+    "with one dangling required reference. A registry reference records the index returned for every device. Indices must be unique per "
+    "group and retrievable, explicit free indices kept, idx2model/idx2uid/get/find_idx (model and group, allow_all, allow_none) must return "
+    "exactly the reference's answers, every BackRef list must be the exact inverse relation, auto-created BusFreq helpers must measure the "
+    "right bus and exist once per bus, and a dangling required reference must make setup() fail.",
+    "Trusted: the reference records returned indices (generated names are not predicted). Only the required references listed in the module "
+    "are made dangling.", "DESIGN.md section 4, C19")
+
 ENGINES = [
     {"name": "tds-sim", "path": "dst/tdssim.py", "kind_free_text": "real TDS loop under StepTap/SolverTap/TimerTap/StoreTap/ConnTap "
      "seams with seeded plans (events, segments, restarts, solver/disk/clock faults, crash points)", "serves_properties": []},
